@@ -27,7 +27,9 @@ META = {
             "for the empty trie (C11:empty-trie-proof-rejected; via the ChainWorker: C11:chain-var-proof-empty-storage). Every run: real proofs "
             "(current/historical roots) = model proofs byte for byte (toy hash); honest and single-field-corrupted proofs through real and "
             "model verifiers (verdicts equal; accepted => claim true of the map); statedb and ChainWorker answers (by address, name, special "
-            "accounts, variables, plain/compressed, every root) verified like a light client by the real and the model verifiers.",
+            "accounts, variables, plain/compressed, every root; on a live StateDB with pending writes before Update, between Update and Commit "
+            "(C11:statedb-proof-between-update-and-commit, API level only) and after, root nil = explicit root) verified like a light client by "
+            "the real and the model verifiers.",
     "note": "Trusted: Coq kernel (vm_compute sample), extraction (ExtrOcamlBasic) + OCaml driver incl. its SHA-256 (test vector each run), Go "
             "toolchain, engines in pkg/trie, state/statedb and chain (overlay build with the VM stub, irrelevant here), generators. No axioms, no "
             "translator. Modelled: the protobuf encoding of types.State and name resolution are function parameters (injectivity assumed for "
@@ -214,7 +216,7 @@ def statedb_cases(rng, n):
                 del vs["var0"]
             rounds.append({"accounts": accts, "vars": vs})
         c = {"rounds": rounds, "qaccts": names + ["ctr", "nobody"], "qvars": vnames + ["novar"], "contract": "ctr"}
-        if rng.random() < 0.75:
+        if not cases or rng.random() < 0.75:
             # puts / storage writes left PENDING on the live StateDB after the last commit: proofs are
             # asked before Update ("buffered") and between Update and Commit ("updated"), root nil
             # and explicit current root
